@@ -132,8 +132,8 @@ def _other_ctx(rp: str | None) -> str:
         return ""
     f = rp.split()
     pl = f[-1]
-    if f[-3] == "0418":
-        return ""
+    if f[-3] == "0418":  # a stale / foreign reply carrying a real entry of another log position
+        return rp[: rp.rfind(" ") + 1] + "000005B0040000000000CD17B5AE7FFFFF7000000001"
     if f[-3] == "3220":
         pl = pl[:4] + "7F" + pl[6:]
     else:
